@@ -1689,3 +1689,282 @@ func ruleIntArmNoFloat(c *Ctx, r *Report) {
 	sort.Strings(names)
 	r.analysed(rule, names...)
 }
+
+// ---------------------------------------------------------------------------
+// R-NO-SPURIOUS-OVERFLOW (C07; added after seed C07g): "yields the mathematically exact result whenever it fits
+// the 64-bit integer range and otherwise raises int_overflow".  For some evaluables the result ALWAYS fits: the
+// remainder and the modulus are smaller in magnitude than the divisor, max and min return an operand, the
+// bitwise operations and the right shift stay inside the range.  These never raise int_overflow: no function
+// statically reachable from their entry in the table of binary evaluables returns the int_overflow value.
+// (Routing rem/2 through the checked division, which rightly refuses min_integer // -1, makes
+// min_integer rem -1 an overflow although the remainder is 0.)
+var alwaysFits = map[string]string{
+	"atomRem":               "|x rem y| < |y|",
+	"atomMod":               "|x mod y| < |y|",
+	"atomMax":               "an operand",
+	"atomMin":               "an operand",
+	"atomBitwiseAnd":        "no bit outside the operands'",
+	"atomBitwiseOr":         "no bit outside the operands'",
+	"atomXor":               "no bit outside the operands'",
+	"atomBitwiseRightShift": "magnitude does not grow",
+}
+
+func ruleNoSpuriousOverflow(c *Ctx, r *Report) {
+	const rule = "R-NO-SPURIOUS-OVERFLOW"
+	desc := "an evaluable whose result always fits never raises int_overflow"
+	table := c.global("binaryFunctors")
+	ovf := c.global("exceptionalValueIntOverflow")
+	if table == nil {
+		r.undecided(rule, "anchor:binaryFunctors", "-", "locate the table of binary evaluables", "not found")
+		return
+	}
+	// the overflow value may be a constant of a named type rather than a variable
+	isOverflow := func(v ssa.Value) bool {
+		for _, l := range c.originSet(v) {
+			if mi, ok := l.(*ssa.MakeInterface); ok {
+				l = mi.X
+			}
+			if ld, ok := l.(*ssa.UnOp); ok && ovf != nil && ld.X == ssa.Value(ovf) {
+				return true
+			}
+			if k, ok := l.(*ssa.Const); ok && isEngNamed(k.Type(), "exceptionalValue") {
+				if nc, ok := c.Engine.Members["exceptionalValueIntOverflow"].(*ssa.NamedConst); ok {
+					a, _ := constInt(k)
+					b, _ := constInt(nc.Value)
+					if a == b {
+						return true
+					}
+				}
+			}
+		}
+		return false
+	}
+	n := 0
+	for _, fn := range c.LibFuncs() {
+		if !isInitFn(fn) {
+			continue
+		}
+		eachInstr(fn, func(in ssa.Instruction) {
+			mu, ok := in.(*ssa.MapUpdate)
+			if !ok {
+				return
+			}
+			isTable := false
+			for _, l := range c.originSet(mu.Map) {
+				if mm, ok := l.(*ssa.MakeMap); ok && mm.Referrers() != nil {
+					for _, ref := range *mm.Referrers() {
+						if st, ok := ref.(*ssa.Store); ok && st.Addr == ssa.Value(table) {
+							isTable = true
+						}
+					}
+				}
+			}
+			if !isTable {
+				return
+			}
+			key := ""
+			if ld, ok := mu.Key.(*ssa.UnOp); ok {
+				if g, ok := ld.X.(*ssa.Global); ok {
+					key = g.Name()
+					if old := c.loadAnchors().Atoms; old != nil {
+						// a renamed atom variable keeps its baseline name
+						for bn, text := range old {
+							if t, ok := c.atomTexts()[key]; ok && t == text && alwaysFits[bn] != "" {
+								key = bn
+							}
+						}
+					}
+				}
+			}
+			if alwaysFits[key] == "" {
+				return
+			}
+			var root *ssa.Function
+			switch v := mu.Value.(type) {
+			case *ssa.Function:
+				root = v
+			case *ssa.ChangeType:
+				root, _ = v.X.(*ssa.Function)
+			}
+			if root == nil {
+				return
+			}
+			n++
+			okey := fmt.Sprintf("%s=%s", key, c.stableFuncName(root))
+			seen := map[*ssa.Function]bool{}
+			var bad ssa.Instruction
+			var walk func(f *ssa.Function, depth int)
+			walk = func(f *ssa.Function, depth int) {
+				if seen[f] || depth > 4 || f.Blocks == nil || funcPkg(f) != c.Engine || bad != nil {
+					return
+				}
+				seen[f] = true
+				eachInstr(f, func(x ssa.Instruction) {
+					switch y := x.(type) {
+					case *ssa.Return:
+						for _, res := range y.Results {
+							if isErrorType(res.Type()) && isOverflow(res) && bad == nil {
+								bad = x
+							}
+						}
+					case ssa.CallInstruction:
+						if callee := y.Common().StaticCallee(); callee != nil {
+							walk(callee, depth+1)
+						}
+					}
+				})
+			}
+			walk(root, 0)
+			if bad == nil {
+				r.ok(rule, okey, c.Pos(root.Pos()), desc, fmt.Sprintf("no return of int_overflow in the %d functions reachable from it (%s)", len(seen), alwaysFits[key]), true)
+			} else {
+				r.bad(rule, okey, c.at(bad), desc, "a function this evaluable reaches returns int_overflow here: for some operands whose result fits ("+alwaysFits[key]+") an overflow is raised, min_integer rem -1 for one")
+			}
+		})
+	}
+	if n < 4 {
+		r.undecided(rule, "floor:table-entries", "-", desc, fmt.Sprintf("only %d of the always-fitting entries of binaryFunctors recognised", n))
+	}
+}
+
+// ---------------------------------------------------------------------------
+// R-ARITH-NO-RECURSION (C05, C07; added after seed C05g): an evaluable functor's Go implementation works on
+// machine numbers, where nothing gets structurally smaller: a recursion between such functions is bounded only
+// by the VALUES, and an int64 has values that a "smaller" step maps to themselves (-min_integer is min_integer).
+// Unlike a Prolog-level recursion this one does not pass through the trampoline: it ends in Go's fatal stack
+// overflow, which no catch/3 and no recover() intercepts. In the static call graph restricted to the functions
+// whose parameters are all numbers (Number, Integer, Float) and that return a number, no cycle is re-entered
+// with the negation of an integer that the branch facts do not separate from min_integer. (Other recursions
+// between such functions - a recursive gcd - are listed and not decided.)
+func (c *Ctx) numericFuncs() []*ssa.Function {
+	isNum := func(t types.Type) bool {
+		return !isPtr(t) && (isEngNamed(t, "Number") || isEngNamed(t, "Integer") || isEngNamed(t, "Float"))
+	}
+	var out []*ssa.Function
+	for _, fn := range c.LibFuncs() {
+		if fn.Parent() != nil || funcPkg(fn) != c.Engine || len(fn.Blocks) == 0 {
+			continue
+		}
+		sig := fn.Signature
+		if sig.Recv() != nil || sig.Params().Len() == 0 || sig.Results().Len() == 0 || !isNum(sig.Results().At(0).Type()) {
+			continue
+		}
+		all := true
+		for i := 0; i < sig.Params().Len(); i++ {
+			if !isNum(sig.Params().At(i).Type()) {
+				all = false
+			}
+		}
+		if all {
+			out = append(out, fn)
+		}
+	}
+	return out
+}
+
+func ruleArithNoRecursion(c *Ctx, r *Report) {
+	const rule = "R-ARITH-NO-RECURSION"
+	desc := "the Go functions that implement arithmetic on machine numbers do not call each other in a cycle"
+	fns := c.numericFuncs()
+	in := map[*ssa.Function]bool{}
+	for _, f := range fns {
+		in[f] = true
+	}
+	succ := map[*ssa.Function][]*ssa.Function{}
+	site := map[[2]*ssa.Function]ssa.Instruction{}
+	for _, f := range fns {
+		for _, g := range withAnon(f) {
+			eachInstr(g, func(i ssa.Instruction) {
+				ci, ok := i.(ssa.CallInstruction)
+				if !ok {
+					return
+				}
+				if callee := ci.Common().StaticCallee(); callee != nil && in[callee] {
+					succ[f] = append(succ[f], callee)
+					if _, dup := site[[2]*ssa.Function{f, callee}]; !dup {
+						site[[2]*ssa.Function{f, callee}] = i
+					}
+				}
+			})
+		}
+	}
+	// reach[f]: functions reachable from f by one or more calls
+	for _, f := range fns {
+		seen := map[*ssa.Function]bool{}
+		var path []*ssa.Function
+		var cyc []*ssa.Function
+		var dfs func(g *ssa.Function) bool
+		dfs = func(g *ssa.Function) bool {
+			for _, h := range succ[g] {
+				if h == f {
+					cyc = append(append([]*ssa.Function{}, path...), g)
+					return true
+				}
+				if seen[h] {
+					continue
+				}
+				seen[h] = true
+				path = append(path, g)
+				if dfs(h) {
+					return true
+				}
+				path = path[:len(path)-1]
+			}
+			return false
+		}
+		key := fname(f) + "/acyclic"
+		if !dfs(f) {
+			r.ok(rule, key, c.Pos(f.Pos()), desc, fmt.Sprintf("no call path back to itself among the %d numeric functions", len(fns)), true)
+			continue
+		}
+		var names []string
+		for _, g := range cyc {
+			names = append(names, g.Name())
+		}
+		names = append(names, f.Name())
+		next := f
+		if len(cyc) > 1 {
+			next = cyc[1]
+		}
+		// the call that enters the cycle: is one of its arguments the negation of an integer that may be min_integer?
+		var offending ssa.Instruction
+		for _, g := range withAnon(f) {
+			eachInstr(g, func(i ssa.Instruction) {
+				ci, ok := i.(ssa.CallInstruction)
+				if !ok || ci.Common().StaticCallee() != next {
+					return
+				}
+				for _, a := range ci.Common().Args {
+					if mi, ok := a.(*ssa.MakeInterface); ok {
+						a = mi.X
+					}
+					var x ssa.Value
+					switch u := a.(type) {
+					case *ssa.UnOp:
+						if u.Op == token.SUB {
+							x = u.X
+						}
+					case *ssa.BinOp:
+						if k, ok := constInt(u.X); ok && k == 0 && u.Op == token.SUB {
+							x = u.Y
+						}
+					}
+					if x == nil || !isEngNamed(x.Type(), "Integer") {
+						continue
+					}
+					rg := c.rangeAt(i.Block(), x)
+					if (rg.hasLo && rg.lo > math.MinInt64) || rg.excludes(math.MinInt64) {
+						continue
+					}
+					offending = i
+				}
+			})
+		}
+		if offending != nil {
+			r.bad(rule, key, c.at(offending), desc, "call cycle "+strings.Join(names, " -> ")+" re-entered with the NEGATION of an integer that may be min_integer (-min_integer is min_integer: the recursion never gets anywhere): Go's stack overflow is fatal and cannot be caught")
+		} else {
+			r.ok(rule, key, c.Pos(f.Pos()), desc, "call cycle "+strings.Join(names, " -> ")+": no argument of the re-entering call is the negation of an integer that may be min_integer; the depth of this recursion is not decided by the rule", false)
+		}
+	}
+	r.analysed(rule, fmt.Sprintf("%d numeric functions, %d call edges among them", len(fns), len(site)))
+}
